@@ -278,9 +278,9 @@ class C05(Check):
                           witness="A__10 -> B with the identity map: the product isotopomer does not carry the substrate's label")
         args_txt = norm(kw.get("args")) if "args" in kw else "?"
         ok_args = args_txt in (
-            "[(dict(zip(BS, NS, strict=True)) | dict(zip(BP, NP, strict=True))).get(k, k) for k in args]",
-            "[dict(zip(it.chain(BS, BP), it.chain(NS, NP), strict=True)).get(k, k) for k in args]",
-            "[(dict(zip(BS, NS)) | dict(zip(BP, NP))).get(k, k) for k in args]",
+            "[(dict(zip(BS, NS, strict=True)) | dict(zip(BP, NP, strict=True))).get(_c0, _c0) for _c0 in args]",
+            "[dict(zip(it.chain(BS, BP), it.chain(NS, NP), strict=True)).get(_c0, _c0) for _c0 in args]",
+            "[(dict(zip(BS, NS)) | dict(zip(BP, NP))).get(_c0, _c0) for _c0 in args]",
         )
         if ok_args and norm(kw.get("fn")) == "function":
             self.holds("L10", MOD, q, "rate-arguments-renamed", anchor, "the rate law's arguments are renamed to the isotopomers taking part (substrates and products), others kept")
